@@ -140,6 +140,103 @@ func (v *view) leakClass(h string, port int, onlyUID int) string {
 	return fmt.Sprintf("reason=%s vsdest=%s own-ns=%s", reason, yn[vsdest], yn[own])
 }
 
+// missingExplainedBy names, from the input shape alone, the known root causes that can make istio
+// drop an exported and imported service with hostname h (idxs = instances with that hostname):
+//
+//	unexported-own-namespace-virtualservice-destination: h is a destination of a VirtualService the
+//	  scope imports and a KUBERNETES service with hostname h lives in the proxy's own namespace without
+//	  being exported to it (collectImportedServices takes that service without a visibility test and,
+//	  being a Kubernetes service, it replaces the exported ServiceEntry already selected for the hostname)
+//	egress-listeners-select-different-namespaces: a port-bound egress listener can take hostname h
+//	  from a set of namespaces different from the set the port-unrestricted listeners can take it from
+//	  (each listener picks its own namespace for the hostname; the scope keeps the first and drops the
+//	  other while LDS is still built per listener)
+//
+// Several matching shapes are joined with "+"; none => "none".
+func (v *view) missingExplainedBy(h string, idxs []int) string {
+	var out []string
+	// (1) VirtualService destination hidden in the proxy's own namespace
+	// Only a hidden KUBERNETES service can make clusters go missing: for one hostname a Kubernetes
+	// service takes precedence over ServiceEntries and replaces the one already selected; a hidden
+	// ServiceEntry is ignored or has its ports merged in (a leak, judged by the negative checks), it
+	// never removes anything.
+	ownHidden := false
+	for _, i := range idxs {
+		if v.insts[i].svc.NS == v.p.NS && v.insts[i].svc.Kind == "k8s" && !v.w.svcExported(v.insts[i].svc, v.p.NS) {
+			ownHidden = true
+		}
+	}
+	if ownHidden {
+		vsdest := false
+		for _, vs := range v.w.VSs {
+			if !v.vsOK[vs.UID] {
+				continue
+			}
+			for _, rt := range vs.Routes {
+				for _, d := range rt.Dests {
+					if strings.EqualFold(d.Host, h) {
+						vsdest = true
+					}
+				}
+				if rt.Mirror != nil && strings.EqualFold(rt.Mirror.Host, h) {
+					vsdest = true
+				}
+			}
+		}
+		if vsdest {
+			out = append(out, "unexported-own-namespace-virtualservice-destination")
+		}
+	}
+	// (2) listeners that can see the hostname in different sets of namespaces
+	if v.scope.sc != nil {
+		nc := map[string]bool{}
+		for _, l := range v.scope.egress() {
+			if l.Port != nil {
+				continue
+			}
+			for _, i := range idxs {
+				in := v.insts[i]
+				if v.w.svcExported(in.svc, v.p.NS) && listenerImportsHost(l, v.p.NS, in.svc.NS, h, false) {
+					nc[in.svc.NS] = true
+				}
+			}
+		}
+		split := false
+		for _, l := range v.scope.egress() {
+			if l.Port == nil {
+				continue
+			}
+			np := map[string]bool{}
+			for _, i := range idxs {
+				in := v.insts[i]
+				if v.w.svcExported(in.svc, v.p.NS) && in.svc.hasPort(l.Port.Num) && listenerImportsHost(l, v.p.NS, in.svc.NS, h, false) {
+					np[in.svc.NS] = true
+				}
+			}
+			if len(np) == 0 {
+				continue
+			}
+			same := len(np) == len(nc)
+			for ns := range np {
+				if !nc[ns] {
+					same = false
+				}
+			}
+			if !same {
+				split = true
+			}
+		}
+		if split {
+			out = append(out, "egress-listeners-select-different-namespaces")
+		}
+	}
+	if len(out) == 0 {
+		return "none"
+	}
+	sort.Strings(out)
+	return strings.Join(out, "+")
+}
+
 // drLeakKey is the root-cause part of a DestinationRule leak key.
 func (v *view) drLeakKey(d *drDef) string {
 	form := exportForm(d.ExportTo, d.NS)
@@ -466,19 +563,9 @@ func checkProxy(w *world, pi int, out *proxyOut, st *checkStats) []finding {
 		if satisfied {
 			continue
 		}
-		// root-cause attributes for the key: is a same-hostname service of ANOTHER namespace also
-		// deliverable (the scope keeps the first one it met and drops the rest)?
-		rival := "no"
-		for _, i := range must {
-			for _, j := range byHost[h] {
-				if len(v.mayPorts[j]) > 0 && v.insts[j].svc.NS != v.insts[i].svc.NS {
-					rival = "yes"
-				}
-				if len(v.mayPorts[j]) > 0 && v.insts[j].svc.NS == v.insts[i].svc.NS && v.insts[j].svc.Kind != v.insts[i].svc.Kind {
-					rival = "yes"
-				}
-			}
-		}
+		// root cause, recognised from the INPUT shape only (never from what istio produced); a shape
+		// that is not recognised keeps explained-by=none and therefore stays a VIOLATION
+		explained := v.missingExplainedBy(h, byHost[h])
 		// supporting observation: do LDS/RDS of the same proxy reference the clusters CDS lacks?
 		var dangling []string
 		for j := range out.occs {
@@ -488,7 +575,7 @@ func checkProxy(w *world, pi int, out *proxyOut, st *checkStats) []finding {
 			}
 		}
 		sort.Strings(dangling)
-		add(fmt.Sprintf("missing=cluster rival-same-hostname=%s", rival),
+		add(fmt.Sprintf("missing=cluster explained-by=%s", explained),
 			fmt.Sprintf("hostname %s is exported to %s and selected by a port-unrestricted egress host, but no such service has clusters for all its ports; missing %v; resources of this proxy that reference the missing clusters: %v [%s]", h, p.NS, missing, dangling, v.why(h)), nil)
 	}
 
